@@ -5,6 +5,8 @@ Reads, from /repo's current working tree,
   src/primitives/triangle/mod.rs                `Triangle::{new, from_slice, area_doubled, sorted_clockwise, sorted_yx,
                                                 scanline_intersection}`, `sort_two_yx`, `ContainsPoint::contains`,
                                                 `Dimensions::bounding_box`, `PointsIter::points`
+  src/primitives/triangle/scanline_intersections.rs  `ScanlineIntersections::{new, empty, reset_with_new_scanline,
+                                                generate_lines}`, `Iterator::next` (not `edge_intersections`)
   src/primitives/triangle/scanline_iterator.rs  `ScanlineIterator::{new, empty}`, `Iterator::next`
   src/primitives/triangle/points.rs             `Points::new`, `Iterator::next`
   src/primitives/polyline/mod.rs                `Polyline::new`, `PointsIter::points`, `Transform::translate`
@@ -14,7 +16,8 @@ and writes EG/Generated/TriSrc.lean: one Lean `def` per Rust function, mirroring
 REUSE (tools/tr_rect.py is imported, not edited): tokenizer, `Cursor`, the statement / expression / pattern parser
 `BodyParser`, `contains_kind`, the failure-file convention. `TriBodyParser(tr_rect.BodyParser)` adds what these sources
 use and Rectangle's do not: `?`, indexing `a[i]`, tuple fields `.0`, array literals `[a, b, c]` / `&[]`, array / slice
-patterns `[p1, p2, p3]`, tuple-pattern closure parameters, `panic!(..)`. tr_rect.BodyParser builds its sub-parsers
+patterns `[p1, p2, p3]`, tuple-pattern closure parameters, `panic!(..)`, `#[allow(..)]` on a statement, an assignment as
+the last thing of a block (`parse_block_body` is a COPY of tr_rect's with these two added). tr_rect.BodyParser builds its sub-parsers
 through the module global `BodyParser`; it is rebound to the subclass only while this part parses (`scoped_parser`,
 restored in `finally`). `parse_postfix_from` is a COPY of tr_rect's with the three postfix forms added. The item scanner
 (lifetime-generic impls and structs, slice / array types), the tiny type inference and the emitter are this file's own:
@@ -26,8 +29,9 @@ prelude: `lean/EG/Model/RectSrcPrelude.lean` (`i32_add`, `bool_and`, `range_i32_
 `lean/EG/Model/TriSrcPrelude.lean` (`Triangle_vertices`, `array3_index`, `i32_cmp`, `slice_split_first`,
 `option_and_then`, `option_or_else_st`, `iter_chain`, `iter_any`, `iterator_nth`, `rust_panic` ...). `Point::new`,
 `Point + Point`, `Rectangle::with_corners / contains / rows` are the REGENERATED functions of `RectSrc.lean`. Code that
-is not regenerated here and is called: `Scanline` (common/scanline.rs), `Line::new` / `line::Points` (line/*.rs) and
-`ScanlineIntersections` (triangle/scanline_intersections.rs); the prelude binds those calls to the hand models.
+is not regenerated here and is called: `Scanline` (common/scanline.rs), `Line::new` / `line::Points` (line/*.rs), the
+iterator returned by `ScanlineIntersections::edge_intersections` (thick strokes) - the prelude binds those calls to the
+hand models - and `Triangle::is_collapsed` (thick strokes; an unspecified `opaque` function of the prelude).
 Beyond re-spelling the translator
   * resolves a method / operator by the TYPE of its receiver (types from signatures, struct declarations and the
     tables below),
@@ -54,6 +58,7 @@ from tr_rect import RectTrError as TrError, Cursor, tokenize, strip_comments, LE
 # (module tag, file)
 FILES = [
     ("tri", "src/primitives/triangle/mod.rs"),
+    ("tri", "src/primitives/triangle/scanline_intersections.rs"),
     ("tri", "src/primitives/triangle/scanline_iterator.rs"),
     ("tri", "src/primitives/triangle/points.rs"),
     ("poly", "src/primitives/polyline/mod.rs"),
@@ -72,12 +77,15 @@ ROOTS = [
     ("Triangle", None, "sorted_yx"), ("Triangle", None, "sorted_clockwise"),
     ("Triangle", "Dimensions", "bounding_box"), ("Triangle", "ContainsPoint", "contains"),
     ("Triangle", None, "scanline_intersection"),
+    ("ScanlineIntersections", None, "empty"), ("ScanlineIntersections", None, "generate_lines"),
+    ("ScanlineIntersections", None, "reset_with_new_scanline"), ("ScanlineIntersections", None, "new"),
+    ("ScanlineIntersections", "Iterator", "next"),
     ("ScanlineIterator", None, "empty"), ("ScanlineIterator", None, "new"), ("ScanlineIterator", "Iterator", "next"),
     ("TriPoints", None, "new"), ("TriPoints", "Iterator", "next"), ("Triangle", "PointsIter", "points"),
     ("Polyline", None, "new"), ("Polyline", "Transform", "translate"),
     ("PolyPoints", None, "new"), ("PolyPoints", "Iterator", "next"), ("Polyline", "PointsIter", "points"),
 ]
-INVENTORY_TYPES = ["Triangle", "ScanlineIterator", "TriPoints", "Polyline", "PolyPoints"]
+INVENTORY_TYPES = ["Triangle", "ScanlineIntersections", "ScanlineIterator", "TriPoints", "Polyline", "PolyPoints"]
 
 OPT = lambda t: ("Option", t)
 # structs whose Lean type is a hand model (prelude accessors `<T>_<field>`, `<T>_set_<field>`, constructor `<T>_mk`)
@@ -85,14 +93,19 @@ EXT_STRUCTS = {
     "Point": [("x", "i32"), ("y", "i32")],
     "Triangle": [("vertices", ("array3", "Point"))],
     "Polyline": [("translate", "Point"), ("vertices", ("slice", "Point"))],
+    "Scanline": [("y", "i32"), ("x", "RangeI32")],
+    "RangeI32": [("start", "i32"), ("end", "i32")],
 }
+# the declaration of `Scanline` (src/primitives/common/scanline.rs, not parsed otherwise) must be this text
+SCANLINE_DECL = ("src/primitives/common/scanline.rs", "pub struct Scanline {\n    pub y: i32,\n    pub x: Range<i32>,\n}")
 # structs declared in the parsed files that become Lean structures of the generated file
-GEN_STRUCTS = ["ScanlineIterator", "TriPoints", "PolyPoints"]
-LEAN_STRUCT_NAME = {"ScanlineIterator": "ScanlineIteratorS", "TriPoints": "TriPointsS", "PolyPoints": "PolyPointsS"}
+GEN_STRUCTS = ["LineConfig", "ScanlineIntersections", "ScanlineIterator", "TriPoints", "PolyPoints"]
+LEAN_STRUCT_NAME = {"LineConfig": "LineConfigS", "ScanlineIntersections": "ScanlineIntersectionsS",
+                    "ScanlineIterator": "ScanlineIteratorS", "TriPoints": "TriPointsS", "PolyPoints": "PolyPointsS"}
 LEAN_TYPES = {
     "i32": "Int", "u32": "Nat", "usize": "Nat", "bool": "Bool", "unit": "Unit", "Point": "Point", "Rectangle": "Rectangle",
     "Triangle": "EG.Triangle", "Polyline": "EG.Polyline", "Scanline": "EG.Scanline", "Line": "EG.Line",
-    "LinePoints": "EG.Line.PointsIt", "ScanlineIntersections": "EG.ScanlineIntersections", "PointType": "EG.PointType",
+    "LinePoints": "EG.Line.PointsIt", "EdgeIntersections": "EdgeIntersections", "PointType": "EG.PointType",
     "StrokeOffset": "StrokeOffset", "Ordering": "Ordering", "RangeI32": "RangeI32",
 }
 # associated functions of types that are not regenerated here: (type, name) -> (lean, parameter types, result)
@@ -103,9 +116,6 @@ ASSOC = {
     ("Scanline", "new_empty"): ("Scanline_new_empty", ["i32"], "Scanline"),
     ("Line", "new"): ("Line_new", ["Point", "Point"], "Line"),
     ("LinePoints", "empty"): ("LinePoints_empty", [], "LinePoints"),
-    ("ScanlineIntersections", "new"): ("ScanlineIntersections_new", ["Triangle", "u32", "StrokeOffset", "bool", "i32"],
-                                       "ScanlineIntersections"),
-    ("ScanlineIntersections", "empty"): ("ScanlineIntersections_empty", [], "ScanlineIntersections"),
 }
 # methods: (receiver type, name) -> (lean, parameter types, result, mutates receiver)
 METHODS = {
@@ -116,8 +126,13 @@ METHODS = {
     ("Scanline", "bresenham_intersection"): ("Scanline_bresenham_intersection", ["Line"], "unit", True),
     ("Line", "points"): ("Line_points", [], "LinePoints", False),
     ("LinePoints", "next"): ("LinePoints_next", [], OPT("Point"), True),
-    ("ScanlineIntersections", "next"): ("ScanlineIntersections_next", [], OPT(("tuple", ("Scanline", "PointType"))), True),
-    ("ScanlineIntersections", "reset_with_new_scanline"): ("ScanlineIntersections_reset_with_new_scanline", ["i32"], "unit", True),
+    ("Scanline", "try_take"): ("Scanline_try_take", [], OPT("Scanline"), True),
+    # NOT regenerated (thick strokes: `LineJoin`, `ThickSegment`): bound to the prelude. `edge_intersections` returns a
+    # `from_fn` closure that captures `self` and reads `triangle`, `stroke_width`, `stroke_offset`: those are passed.
+    ("ScanlineIntersections", "edge_intersections"): ("ScanlineIntersections_edge_intersections {r}.triangle {r}.stroke_width {r}.stroke_offset",
+                                                       ["i32"], "EdgeIntersections", False),
+    ("EdgeIntersections", "next"): ("EdgeIntersections_next", [], OPT("Scanline"), True),
+    ("Triangle", "is_collapsed"): ("Triangle_is_collapsed", ["u32", "StrokeOffset"], "bool", False),
     ("i32", "cmp"): ("i32_cmp", ["i32"], "Ordering", False),
     ("i32", "min"): ("i32_min", ["i32"], "i32", False),
     ("i32", "max"): ("i32_max", ["i32"], "i32", False),
@@ -129,6 +144,7 @@ CTORS = {
     ("Ordering", "Greater"): ("Ordering.gt", "Ordering"),
     ("StrokeOffset", "None"): ("StrokeOffset.None", "StrokeOffset"), ("StrokeOffset", "Left"): ("StrokeOffset.Left", "StrokeOffset"),
     ("StrokeOffset", "Right"): ("StrokeOffset.Right", "StrokeOffset"),
+    ("PointType", "Stroke"): ("EG.PointType.stroke", "PointType"), ("PointType", "Fill"): ("EG.PointType.fill", "PointType"),
 }
 BIN_ARITH = {"+": "add", "-": "sub", "*": "mul", "/": "div"}
 BIN_CMP = {"==": "eq", "!=": "ne", "<": "lt", ">": "gt", "<=": "le", ">=": "ge"}
@@ -221,6 +237,60 @@ class TriBodyParser(tr_rect.BodyParser):
                     e = ("field", d.line, e, name)
                 continue
             return e
+
+    def parse_block_body(self):
+        """tr_rect.BodyParser.parse_block_body (COPIED: it is one loop) plus: `#[allow(..)]` in front of a statement is
+        skipped, and an assignment may be the last thing of a block without `;`."""
+        c = self.c
+        stmts, tail = [], None
+        while not c.eof():
+            if tail is not None:
+                self.fail("expression in the middle of a block without `;`")
+            if c.at(";"):
+                c.next()
+                continue
+            if c.at("#"):
+                h = c.next()
+                s, e = c.skip_balanced("[", "]")
+                if c.t[s].text != "allow":
+                    self.fail("attribute other than `#[allow(..)]` inside a body", h)
+                continue
+            if c.at("let"):
+                t = c.next()
+                mut = False
+                if c.at("mut"):
+                    c.next()
+                    mut = True
+                pat = self.parse_pattern()
+                ty = None
+                if c.at(":"):
+                    self.fail("type annotation on a `let` not supported")
+                c.expect("=")
+                e = self.parse_expr()
+                if c.at("else"):
+                    self.fail("let-else not supported")
+                c.expect(";")
+                stmts.append(("let", t.line, pat, ty, e, mut))
+                continue
+            if c.peek().kind == "id" and c.peek().text in ("fn", "struct", "enum", "impl", "use", "const", "static", "loop", "for", "unsafe"):
+                self.fail(f"`{c.peek().text}` inside a body is not supported")
+            e = self.parse_expr(stmt=True)
+            if c.at("=") or (c.peek() and c.peek().kind == "p" and c.peek().text in ("+=", "-=", "*=", "/=", "%=")):
+                op = c.next()
+                rhs = self.parse_expr()
+                if not c.eof():
+                    c.expect(";")
+                stmts.append(("assign", op.line, op.text, e, rhs))
+            elif c.at(";"):
+                c.next()
+                stmts.append(("expr", e[1], e))
+            elif c.eof():
+                tail = e
+            elif e[0] in ("if", "match", "block", "while"):
+                stmts.append(("expr", e[1], e))
+            else:
+                self.fail(f"expected `;` or end of block after expression, found `{c.peek().text}`")
+        return stmts, tail
 
     def parse_primary(self, nostruct):
         c = self.c
@@ -482,7 +552,12 @@ def scan_items(c, prog, rel, mod, impl_type=None, trait=None, assoc=None):
                     raise TrError(f"{rel}: fn {f.name}: cannot parse parameters at {pc.peek()!r}")
             if c.at("->"):
                 c.next()
-                f.ret = parse_type(c, mod)
+                if c.at("impl"):
+                    f.ret = ("opaque", "impl Trait")
+                    while not c.at("{"):
+                        c.next()
+                else:
+                    f.ret = parse_type(c, mod)
             if c.at("where"):
                 # only lifetime bounds (`'a: 'b`)
                 c.next()
@@ -548,6 +623,8 @@ class Emitter:
             return t
         if t[0] == "refmut":
             return self.norm(t[1], f)
+        if t[0] == "opaque":
+            raise TrError(f"{f.rel}: fn {f.name}: return type `{t[1]}` is not supported")
         if t[0] == "assoc":
             if t[1] not in f.assoc:
                 raise TrError(f"{f.rel}: fn {f.name}: associated type Self::{t[1]} not found in the impl")
@@ -712,7 +789,7 @@ class Emitter:
                 while root[0] == "field":
                     root = root[2]
                 if root[0] == "path" and len(root[2]) == 1 and env.get(root[2][0], (None, False))[1]:
-                    if node[3] in ("next", "nth", "bresenham_intersection", "reset_with_new_scanline"):
+                    if node[3] in ("next", "nth", "bresenham_intersection", "reset_with_new_scanline", "try_take"):
                         return True
             return any(self.mut_call_inside(x, env) for x in node)
         if isinstance(node, list):
@@ -749,9 +826,10 @@ class Emitter:
             _, line, op, lhs, rhs = s
             if op != "=":
                 self.fail(f, line, f"compound assignment `{op}` not supported")
-            root, fl, t = self.place(lhs, env, ctx, line)
-            pre, txt, _ = self.expr(rhs, env, ctx, t)
-            new = txt if fl is None else self.setter(env[root][0], fl, lvar(root), txt)
+            root, fls, t = self.place(lhs, env, ctx, line)
+            pre, txt, rt_ = self.expr(rhs, env, ctx, t)
+            self.unify(rt_, t, f, line)
+            new = self.place_write(root, fls, env, txt)
             return self.seal(pre, lambda ind2: f"{ind2}let {lvar(root)} := {new}\n" + self.block(rest, 0, tail, env, ctx, ind2, want), ctx, ind)
         if s[0] == "expr":
             e = s[2]
@@ -872,23 +950,41 @@ class Emitter:
 
     # ---- places
     def place(self, e, env, ctx, line):
-        """(root variable, field or None, type of the place); the root must be mutable."""
+        """(root variable, [fields], type of the place); the root must be mutable."""
         f = ctx.f
-        fl = None
-        if e[0] == "field":
-            fl, e = e[3], e[2]
+        fls = []
+        while e[0] == "field":
+            fls.insert(0, e[3])
+            e = e[2]
         if e[0] != "path" or len(e[2]) != 1 or e[2][0] not in env:
-            self.fail(f, line, "assignment / mutation target must be a local or a field of a local")
+            self.fail(f, line, "assignment / mutation target must be a local or a field path of a local")
         root = e[2][0]
         t, mut = env[root]
         if not mut:
             self.fail(f, line, f"`{root}` is not mutable")
-        if fl is None:
-            return root, None, t
-        for n, ft in self.fields(t, f"{f.rel}:{line}"):
-            if n == fl:
-                return root, fl, ft
-        self.fail(f, line, f"`{tstr(t)}` has no field `{fl}`")
+        for fl in fls:
+            for n, ft in self.fields(t, f"{f.rel}:{line}"):
+                if n == fl:
+                    t = ft
+                    break
+            else:
+                self.fail(f, line, f"`{tstr(t)}` has no field `{fl}`")
+        return root, fls, t
+
+    def place_read(self, root, fls, env):
+        t, cur = env[root][0], lvar(root)
+        for fl in fls:
+            cur = self.getter(t, fl, cur)
+            t = dict(self.fields(t, "place"))[fl]
+        return cur
+
+    def place_write(self, root, fls, env, val):
+        def go(t, cur, rest):
+            if not rest:
+                return val
+            inner = go(dict(self.fields(t, "place"))[rest[0]], self.getter(t, rest[0], cur), rest[1:])
+            return self.setter(t, rest[0], cur, inner)
+        return go(env[root][0], lvar(root), fls)
 
     # ---- expressions: (pre, text, type)
     def pure(self, e, env, ctx, want=None):
@@ -926,6 +1022,8 @@ class Emitter:
                 lt, ty = CTORS[(segs[-2], segs[-1])]
                 return [], lt, ty
             self.fail(f, line, f"path `{'::'.join(segs)}` not known")
+        if k == "unit":
+            return [], "()", "unit"
         if k == "neg":
             pre, a, t = self.expr(e[2], env, ctx, "i32")
             self.unify(t, "i32", f, line)
@@ -1082,8 +1180,8 @@ class Emitter:
         if op in BIN_CMP:
             if t1 == t2 and t1 in ("i32", "u32"):
                 return p1 + p2, f"({t1}_{BIN_CMP[op]} {a} {b})", "bool"
-            if t1 == t2 == "Point" and op in ("==", "!="):
-                return p1 + p2, f"(Point_{BIN_CMP[op]} {a} {b})", "bool"
+            if t1 == t2 and t1 in ("Point", "StrokeOffset") and op in ("==", "!="):
+                return p1 + p2, f"({t1}_{BIN_CMP[op]} {a} {b})", "bool"
             self.fail(f, line, f"comparison `{op}` on {tstr(t1)} and {tstr(t2)} not supported")
         self.fail(f, line, f"operator `{op}` not supported")
 
@@ -1205,7 +1303,7 @@ class Emitter:
             v = ctx.fresh()
             return pre + [("let", v, f"iterator_nth ({self.fname(f)} fuel){a} self"), ("let", "self", f"{v}.2")], f"{v}.1", self.norm(f.ret, f)
         # Option / iterator combinators with closures
-        if name in ("and_then", "map", "unwrap_or_else", "or_else", "chain", "any"):
+        if name in ("and_then", "map", "unwrap_or_else", "unwrap_or", "or_else", "chain", "any"):
             return self.combinator(e, env, ctx, want)
         pre, r, rt = self.expr(recv, env, ctx)
         if isinstance(rt, tuple) and rt[0] == "slice" and name in ("split_first", "first"):
@@ -1219,7 +1317,8 @@ class Emitter:
             p2, a = self.args(argv, pts, env, ctx, line, name)
             self.order_guard([(pre, r), (p2, a)], f, line)
             if not mut:
-                return pre + p2, f"({lean} {r}{a})", vt
+                head = lean.format(r=r) if "{r}" in lean else f"{lean} {r}"
+                return pre + p2, f"({head}{a})", vt
             return self.mut_apply(recv, f"{lean} {{}}{a}", vt, pre + p2, env, ctx, line, discard)
         g = self.find(rt, name, f"{f.rel}:{line}") if isinstance(rt, str) else None
         if g is None:
@@ -1237,16 +1336,12 @@ class Emitter:
 
     def mut_apply(self, recv, call_fmt, vt, pre, env, ctx, line, discard, pair_always=False):
         """a method that mutates its receiver, applied to a place: re-bind the root; value (if any) is `.1`."""
-        root, fl, t = self.place(recv, env, ctx, line)
-        cur = lvar(root) if fl is None else self.getter(env[root][0], fl, lvar(root))
-        callt = call_fmt.format(cur)
+        root, fls, t = self.place(recv, env, ctx, line)
+        callt = call_fmt.format(self.place_read(root, fls, env))
         if vt == "unit" and not pair_always:
-            new = f"({callt})"
-            upd = new if fl is None else self.setter(env[root][0], fl, lvar(root), new)
-            return pre + [("let", lvar(root), upd)], "()", "unit"
+            return pre + [("let", lvar(root), self.place_write(root, fls, env, f"({callt})"))], "()", "unit"
         v = ctx.fresh()
-        upd = f"{v}.2" if fl is None else self.setter(env[root][0], fl, lvar(root), f"{v}.2")
-        return pre + [("let", v, callt), ("let", lvar(root), upd)], f"{v}.1", vt
+        return pre + [("let", v, callt), ("let", lvar(root), self.place_write(root, fls, env, f"{v}.2"))], f"{v}.1", vt
 
     def closure(self, cl, ptypes, env, ctx, want, line):
         """a closure without effects: (lean `fun` text, result type)."""
@@ -1287,6 +1382,11 @@ class Emitter:
             c, t = self.closure(argv[0], [], env, ctx, rt[1], line)
             self.unify(t, rt[1], f, line)
             return pre, f"(option_unwrap_or_else {r} {c})", t
+        if name == "unwrap_or" and isopt:
+            p2, d, dt = self.expr(argv[0], env, ctx, rt[1])        # the argument is evaluated eagerly
+            self.unify(dt, rt[1], f, line)
+            self.order_guard([(pre, r), (p2, d)], f, line)
+            return pre + p2, f"(option_unwrap_or {r} {d})", dt
         if name == "or_else" and isopt:
             c, t = self.closure(argv[0], [], env, ctx, rt, line)
             self.unify(t, rt, f, line)
@@ -1346,10 +1446,13 @@ def load(repo):
 def translate(repo):
     prog = load(repo)
     for name, fields in EXT_STRUCTS.items():
-        if name in ("Point",):
-            continue        # declared in core/src/geometry/point.rs; checked by tr_rect.py
+        if name in ("Point", "Scanline", "RangeI32"):
+            continue        # Point: core/src/geometry/point.rs, checked by tr_rect.py; Scanline: SCANLINE_DECL below; Range: core
         if prog.structs.get(name) != fields:
             raise TrError(f"struct {name}: fields {prog.structs.get(name)} differ from the prelude's {fields}")
+    rel_, decl_ = SCANLINE_DECL
+    if decl_ not in open(os.path.join(repo, rel_)).read():
+        raise TrError(f"{rel_}: the declaration of `Scanline` differs from the prelude's (`y: i32, x: Range<i32>`)")
     em = Emitter(prog)
     text = [HEADER]
     for sn in GEN_STRUCTS:
@@ -1392,7 +1495,7 @@ def failed_file(reason):
 SELFTEST_SRC = """
 pub struct Triangle { pub vertices: [Point; 3], }
 pub struct Points { scanline_iter: ScanlineIterator, current_line: Scanline, }
-pub struct ScanlineIterator { rows: Range<i32>, scanline_y: i32, intersections: ScanlineIntersections, }
+pub struct ScanlineIterator { rows: Range<i32>, scanline_y: i32, }
 impl ScanlineIterator { fn bump(&mut self) -> Option<i32> { self.rows.next() } }
 impl Triangle {
     fn helper(&self, a: i32) -> i32 { a }
@@ -1447,7 +1550,7 @@ def selftest():
     src += "}\nimpl Points {\n"
     for (name, sig, body, _, _) in SELFTEST_MUT:
         src += f"    fn {name}{sig} {{ {body} }}\n"
-    src += "}\nimpl Iterator for ScanlineIterator { type Item = (Scanline, PointType); fn next(&mut self) -> Option<Self::Item> { self.intersections.next() } }\n"
+    src += "}\nimpl Iterator for ScanlineIterator { type Item = (Scanline, PointType); fn next(&mut self) -> Option<Self::Item> { let y = self.rows.next()?; Some((Scanline::new_empty(y), PointType::Fill)) } }\n"
     try:
         prog = Prog()
         scan_items(Cursor(tokenize(strip_comments(src, "selftest"), "selftest")), prog, "selftest", "tri")
